@@ -9,6 +9,7 @@
 #include <atomic>
 #include <thread>
 
+#include <fstream>
 #include <sys/wait.h>
 #include <unistd.h>
 
@@ -146,6 +147,7 @@ static bool run_once(const TCase& k, int threads, int plan_us, Digest& d, ct::Ce
     const std::string dir = sk::scratch_dir("c15t");
     global_simulation_parameters sp = sk::basic_params(dir, t.edge);
     sp.min_edge_len_ = k.lmin_f * t.edge;
+    sp.sampling_period_ = 3 * sp.time_step_;  // mesh output (two concurrent writer sections) every third iteration: the files are part of the result
     g_plan_seed = k.plan;
     g_plan_max_us = plan_us;
     bool ok = true;
@@ -172,6 +174,19 @@ static bool run_once(const TCase& k, int threads, int plan_us, Digest& d, ct::Ce
             d.conn.push_back(c->get_id());
         }
         d.stats = strip_clock(S.get_simulation_statistics());
+        {
+            // every byte of every mesh file written during the run
+            std::vector<std::string> files;
+            for (auto& e : std::filesystem::recursive_directory_iterator(dir))
+                if (e.is_regular_file()) files.push_back(e.path().string());
+            std::sort(files.begin(), files.end());
+            for (auto& f : files) {
+                std::ifstream in(f, std::ios::binary);
+                std::ostringstream ss;
+                ss << in.rdbuf();
+                d.stats += "\n##file " + f.substr(dir.size()) + " " + std::to_string(ss.str().size()) + "\n" + ss.str();
+            }
+        }
         scope.add(S.cells());
     } catch (const std::exception& e) {
         err = e.what();
@@ -286,7 +301,7 @@ static std::string runT(const TCase& k, vf::Ctx& ctx) {
         if (!(d == ref)) {
             std::ostringstream os;
             os << "run with " << t << " threads (sleep plan " << k.plan << ", up to " << k.plan_max_us << " us) differs from the single-threaded run: "
-               << (d.conn != ref.conn ? "connectivity" : d.pos != ref.pos ? "node positions" : d.mom != ref.mom ? "momenta" : "statistics");
+               << (d.conn != ref.conn ? "connectivity" : d.pos != ref.pos ? "node positions" : d.mom != ref.mom ? "momenta" : "statistics or mesh files");
             return os.str();
         }
     }
